@@ -64,6 +64,8 @@ def unpivot_oracle(ctx, table, sel, plain, c1, c2):
     ncols = len(udesc)
     others = [i for i in range(ncols) if i not in (c1, c2)]
     nother = len(others)
+    if any(r[c1] is None or r[c2] is None for r in urows):
+        return      # NULL keys: the recorded finding F-20 (compared with the model only)
     keys = sorted({r[c2] for r in urows})
     problems = []
     if len(pdesc) != 1 + len(keys) * nother:
